@@ -182,6 +182,7 @@ class TranslatorC(Translator):
                     out = "%s(0x%x, %s)" % (expr.op, expr.args[0].size, out)
                 else:
                     out = "bignum_%s(%s, %d)" % (expr.op, out, arg.size)
+                    out = "bignum_from_uint64(%s)" % out
                 return out
 
             elif expr.op == '!':
